@@ -177,6 +177,38 @@ LockRespected        == ~("LockRespected" \in bad)
 ProposalCarriesValid == ~("ProposalCarriesValid" \in bad)
 NoPanic == s.panic = "none"
 View == <<s, inq, sig, lock, have, bad>>
+\* ------------------------------------------------------------------ guided corridors (attack synthesis, DESIGN 4.3)
+\* State constraints that restrict the adversary to the moves of one known attack pattern, so that TLC finds the
+\* counterexample of a weakened spec breadth-first in seconds (random simulation needs > 25 min for these three).
+\* Used ONLY with a Weak switch, to show that the clause is not vacuous and to obtain the attack schedule; a corridor
+\* removes behaviours, so nothing is ever concluded from "no violation" inside one.
+CB == "Z0"
+CC == "Z1"
+IsPair(t, r, x, y) == act.name = "EnvPair" /\ act.m.t = t /\ act.m.r = r /\ act.m.v = x /\ act.m2.v = y
+CorridorCommon ==
+  /\ (act.name = "EnvPair" /\ act.m.t = "precommit") => (act.m.v # act.m2.v /\ act.m.r = s.round)   \* +2/3 any, never a decision
+  /\ (act.name = "Deliver" /\ act.m.t = "proposal") => act.m.r = s.round
+\* RelockKeepsRound: lock B in round 0, miss the nil polka of round 1, re-lock B in round 2, THEN learn the round-1 polka
+CorridorRelock ==
+  /\ CorridorCommon
+  /\ (act.name = "EnvPair" /\ act.m.t = "prevote") =>
+        \/ IsPair("prevote", 0, CB, CB) \/ IsPair("prevote", 2, CB, CB)
+        \/ (IsPair("prevote", 1, Nil, Nil) /\ lock.r = 2)
+  /\ (act.name = "Deliver" /\ act.m.t = "proposal") => (act.m.pol = -1 /\ act.m.v = (IF act.m.r = 3 THEN CC ELSE CB))
+\* UnlockOnOlderPolka: lock B in round 1, then learn a nil polka of round 0
+CorridorOlder ==
+  /\ CorridorCommon
+  /\ (act.name = "EnvPair" /\ act.m.t = "prevote") =>
+        \/ IsPair("prevote", 1, CB, CB)
+        \/ (IsPair("prevote", 0, Nil, Nil) /\ lock.r = 1)
+  /\ (act.name = "Deliver" /\ act.m.t = "proposal") => (act.m.pol = -1 /\ act.m.v = (IF act.m.r = 3 THEN CC ELSE CB))
+\* PolProposalOverridesLock: lock B in round 0, then a proposal for C that names round 0 as its POL round
+CorridorPol ==
+  /\ CorridorCommon
+  /\ (act.name = "EnvPair" /\ act.m.t = "prevote") => IsPair("prevote", 0, CB, CB)
+  /\ (act.name = "Deliver" /\ act.m.t = "proposal") =>
+        \/ (act.m.r = 0 /\ act.m.v = CB /\ act.m.pol = -1)
+        \/ (act.m.r = 1 /\ act.m.v = CC /\ act.m.pol = 0)
 \* ------------------------------------------------------------------ coverage goals (DESIGN 4.2 d)
 \* Each goal names a guard outcome of the node's rules.  While TLC explores the model it prints, for
 \* the first WitnessK states (per worker) that satisfy a goal, the schedule that led there; the check
